@@ -120,7 +120,13 @@ def check(case, exclude=None):
     rec = scaled(case)
     ex_units = EXCLUDE_BZG_UNITS if exclude is None else exclude
     ex_fold = EXCLUDE_FOLD_ONCE if exclude is None else exclude
-    crys = cs.build(rec)
+    try:
+        crys = cs.build(rec)
+    except ArithmeticError as e:
+        # a non-primitive recipe goes through Crystal.reduce: its failure (R12) is C19's subject, the crystal cannot be built here
+        if "Reduction did not produce" in str(e):
+            return {"excluded": "R12", "classes": ["reduce_arith_error(C19 domain)"], "nontrivial": False}
+        raise
     d = crys.dim
     L, rots = group_of(rec, crys)
     B = geom2.reciprocal(L)
